@@ -491,7 +491,8 @@ impl<'a> Selector<'a> {
             Expr::FilterFunc(filter_expr) => match filter_expr {
                 FilterFunc::Exists(paths) => self.eval_exists(root, pos, paths),
             },
-            _ => todo!(),
+            // arithmetic expressions and bare operands are parsed but cannot be evaluated as a filter
+            _ => Err(Error::InvalidJsonPath),
         }
     }
 
